@@ -134,7 +134,43 @@ def run_engine(ctx, msgs, name="eng", rounds=8):
             if l and l.startswith("NEED\t"):
                 ty, lk, hc = l.split("\t")[1].split("|")
                 need[i].add((ty, lk, bytes.fromhex(hc).decode("utf-8", "replace")))
-    return [{"lib": lib[i], "model": model[i], "table": table, "need": need[i]} for i in range(len(msgs))]
+    # which texts are canonical in the sense of Engine/Factor.v (the class the byte-level theorems speak about):
+    # decided by the extracted predicates themselves, the tokenisation below is only a proposal the model verifies
+    ccases = []
+    for c, text in msgs:
+        crlf, toks = canon_parts(text)
+        ccases.append("canon\t%s\t%d\t%s" % (hexs(text), 1 if crlf else 0, ";".join("%s|%s" % (hexs(t), hexs(x)) for t, x in toks)))
+    cres = run_model(ctx, ccases, name + ".canon") if ccases else []
+    canon = [(l or "").strip() == "CANON\t1" for l in cres]
+    ctx.stats[name + "_texts"] = len(msgs)
+    ctx.stats[name + "_texts_in_exec_factor_class"] = sum(canon)
+    return [{"lib": lib[i], "model": model[i], "table": table, "need": need[i], "canon": canon[i] if i < len(canon) else False} for i in range(len(msgs))]
+
+
+CANON_TAG = re.compile(r"^:([A-Za-z0-9]{2,4}):")
+
+
+def canon_parts(text):
+    """(crlf, [(tag, content)]) such that text may equal ws ++ render crlf toks (the model decides)"""
+    rest = text.lstrip("\n\r ")
+    crlf = "\r\n" in rest
+    lines = rest.split("\n")
+    if lines and lines[-1] == "":
+        lines = lines[:-1]
+    toks = []
+    for ln in lines:
+        m = CANON_TAG.match(ln)
+        if m:
+            toks.append([m.group(1), ln[m.end():]])
+        elif toks:
+            toks[-1][1] += "\n" + ln
+        else:
+            return crlf, []
+    if crlf:
+        for t in toks:
+            if t[1].endswith("\r"):
+                t[1] = t[1][:-1]
+    return crlf, [(t, x) for t, x in toks]
 
 
 NUM_RE = re.compile(r"(\d+),(\d*)")
